@@ -29,8 +29,8 @@ DECIDED = ["(a) no device write before the file is recognised / size-validated; 
            "(b, partial) panic sites (bounds, slice ranges, overflow, unwrap of slice conversions, copy lengths, allocation sizes) in the device-byte parsers discharged",
            "every extent recovery queues for retirement lies inside the device",
            "(c, partial) the recovery scan's sector and the zero-scan's remaining byte count strictly advance on every back edge"]
-NOT_DECIDED = ["(b) at the 21 residual sites of spec/c17_residual.json (scanner window invariant, visitor-callback arithmetic, sizes of indexed records) and outside the parser scope",
-               "(c) the chunk loop of RecoveryScanner::visit_blocks (needs the same window invariant); termination of callees"]
+NOT_DECIDED = ["(b) at the 10 residual sites of spec/c17_residual.json (visitor-callback arithmetic, sizes / location of indexed records) and outside the parser scope",
+               "(c) termination of callees outside the parser scope"]
 TECHNIQUE = ("static analysis: MIR dominance / guard / who-may-call rules via a custom rustc_private driver, plus a flow-sensitive value "
              "reconstruction with linear-integer discharge (interval propagation + Fourier-Motzkin) of every bounds / overflow / "
              "length obligation in the device-byte parsers")
